@@ -16,19 +16,20 @@ import (
 
 // known-finding ids (see /verif/findings.d/c13.json)
 const (
-	fCond   = "C13-func-in-condition"                        // funcmap functions are invisible to v-if / v-else-if / v-show
-	fNest   = "C13-func-under-operator"                      // funcmap functions cannot be called inside an operator expression
-	fErrC   = "C13-func-error-in-condition"                  // failing function call in a condition is swallowed
-	fBNeg   = "C13-bare-negation"                            // {{ !x }} / :a="!x" print nothing
-	fShowN  = "C13-vshow-negation-nonbool"                   // v-show="!z" hides for falsy non-bool z while v-if="!z" shows
-	fQVar   = "C13-quoted-arg-reinterpreted"                 // f("a") passes the value of variable a; " x " -> "x"; "'q'" -> q
-	fWhole  = "C13-whole-expression-call-bypasses-evaluator" // {{ upper(lower(h)) }} prints LOWER(H), {{ max(a, b) }}: function not found
-	fPipeIn = "C13-call-as-pipe-input-swallows-error"        // {{ safe(bad) | upper }} renders empty, {{ add(1) | string }} prints <nil>
-	fInnerB = "C13-registered-builtin-name-nested-in-call"   // isBig(sum(a, 1, b)) with a registered sum does not compile
-	fInnerU = "C13-unknown-function-nested-in-call"          // v-if="upper(nosuch(s))" is silently false
-	fTagEl  = "C13-tagged-field-of-slice-element"            // team[0].age + 1 fails where team is a slice of structs with JSON tags
-	fNegEr  = "C13-func-error-after-leading-negation"        // {{ !t || fail(a) }} prints a value instead of failing
-	fBoolN  = "C13-arg-variable-named-like-bool"             // f(t) / f(f): a variable named t or f is read as the literal true / false
+	fCond   = "C13-func-in-condition"                          // funcmap functions are invisible to v-if / v-else-if / v-show
+	fNest   = "C13-func-under-operator"                        // funcmap functions cannot be called inside an operator expression
+	fErrC   = "C13-func-error-in-condition"                    // failing function call in a condition is swallowed
+	fBNeg   = "C13-bare-negation"                              // {{ !x }} / :a="!x" print nothing
+	fShowN  = "C13-vshow-negation-nonbool"                     // v-show="!z" hides for falsy non-bool z while v-if="!z" shows
+	fQVar   = "C13-quoted-arg-reinterpreted"                   // f("a") passes the value of variable a; " x " -> "x"; "'q'" -> q
+	fWhole  = "C13-whole-expression-call-bypasses-evaluator"   // {{ upper(lower(h)) }} prints LOWER(H), {{ max(a, b) }}: function not found
+	fPipeIn = "C13-call-as-pipe-input-swallows-error"          // {{ safe(bad) | upper }} renders empty, {{ add(1) | string }} prints <nil>
+	fInnerB = "C13-registered-builtin-name-nested-in-call"     // isBig(sum(a, 1, b)) with a registered sum does not compile
+	fInnerU = "C13-unknown-function-nested-in-call"            // v-if="upper(nosuch(s))" is silently false
+	fArgNm  = "C13-missing-variable-argument-becomes-its-name" // {{ default(nope, 'fb') }} prints nope
+	fTagEl  = "C13-tagged-field-of-slice-element"              // team[0].age + 1 fails where team is a slice of structs with JSON tags
+	fNegEr  = "C13-func-error-after-leading-negation"          // {{ !t || fail(a) }} prints a value instead of failing
+	fBoolN  = "C13-arg-variable-named-like-bool"               // f(t) / f(f): a variable named t or f is read as the literal true / false
 )
 
 type gen struct {
@@ -58,7 +59,7 @@ func (g *gen) paths(t *rapid.T, base, fnNamed []string) []string {
 func newGen(rec *ev.Rec) *gen {
 	f := kf.Load()
 	g := &gen{rec: rec, open: map[string]bool{}}
-	for _, id := range []string{fCond, fNest, fErrC, fBNeg, fShowN, fQVar, fBoolN, fNegEr, fTagEl, fWhole, fPipeIn, fInnerU, fInnerB} {
+	for _, id := range []string{fCond, fNest, fErrC, fBNeg, fShowN, fQVar, fBoolN, fNegEr, fTagEl, fWhole, fPipeIn, fInnerU, fInnerB, fArgNm} {
 		g.open[id] = f.Open(id)
 	}
 	return g
@@ -481,7 +482,50 @@ func (g *gen) genExprCase(t *rapid.T) Case {
 }
 
 // afterFailure puts a failing render built from the case's own source in front of it.
+// equivalents draws documented-equivalent spellings for a value case.
+func equivalents(t *rapid.T, c Case) Case {
+	if c.Fam != "expr" && c.Fam != "pipe" && c.Fam != "path" && c.Fam != "neg" {
+		return c
+	}
+	if rapid.IntRange(0, 2).Draw(t, "tplspell") == 0 {
+		c.Tpl = pick(t, "tpl", tplSpellings[1:])
+	}
+	if c.E != nil && hasEq(*c.E) && rapid.IntRange(0, 1).Draw(t, "strict") == 0 {
+		c.Strict = rapid.IntRange(1, 3).Draw(t, "strictN")
+	}
+	if c.E != nil && rapid.IntRange(0, 3).Draw(t, "keys") == 0 {
+		c.Keys = pick(t, "keystyle", []string{"s", "d"})
+	}
+	if c.Fam == "pipe" && rapid.IntRange(0, 3).Draw(t, "callform") == 0 {
+		c = callForm(c)
+	}
+	return c
+}
+
+// callForm writes a chain as nested calls; an expression, so every position applies.
+func callForm(c Case) Case {
+	if _, bound := resolve(envOf(c.Env), c.Init); !bound && kf.Load().Open(fArgNm) {
+		return c // a missing variable as call argument: region of the open finding
+	}
+	c.Form = "call"
+	if contains(c.Pos, posBound) {
+		c.Pos = allExprPos
+	}
+	return c
+}
+
+func hasEq(e Expr) bool {
+	r := false
+	e.walk(func(x Expr, _ int) {
+		if x.K == "bin" && (x.V == "==" || x.V == "!=") {
+			r = true
+		}
+	})
+	return r
+}
+
 func afterFailure(t *rapid.T, c Case) Case {
+	c = equivalents(t, c)
 	if (c.Fam == "expr" || c.Fam == "pipe" || c.Fam == "path") && !c.Late && c.Env != structEnv {
 		c.Deliver = pick(t, "deliver", []string{"", "", "assign", "fragment"})
 	} else if c.Env == structEnv && !c.Late {
@@ -1020,6 +1064,18 @@ func classify(c Case) (bool, []string) {
 	cls := []string{"fam=" + c.Fam, fmt.Sprintf("env=%d", c.Env)}
 	for _, p := range c.Pos {
 		cls = append(cls, "pos="+p)
+	}
+	if c.Tpl != "" {
+		cls = append(cls, "template spelling="+c.Tpl)
+	}
+	if c.Strict > 0 {
+		cls = append(cls, fmt.Sprintf("=== / !== written %d times", c.Strict))
+	}
+	if c.Keys != "" {
+		cls = append(cls, "paths with bracket keys a['b'] / a[\"b\"]")
+	}
+	if c.Form == "call" {
+		cls = append(cls, "B:chain written in call form g(f(x, a))")
 	}
 	if c.After != "" {
 		cls = append(cls, "after-failure="+c.After)
